@@ -147,16 +147,15 @@ func errClass(msg string) string {
 	switch {
 	case strings.Contains(m, "consecutive"):
 		return "too-many-consecutive-losses"
-	case strings.Contains(m, "checksum"):
-		return "checksum"
-	case strings.Contains(m, "integrity"):
-		return "integrity"
+	case strings.Contains(m, "recomputed with different output"):
+		return "output-changed"
+	case strings.Contains(m, "checksum") || strings.Contains(m, "integrity"):
+		return "corrupt-stream"
 	case strings.Contains(m, "no location"):
 		return "no-location"
-	case strings.Contains(m, "gob") || strings.Contains(m, "decod"):
-		return "decode"
-	case strings.Contains(m, "eof"):
-		return "eof"
+	case strings.Contains(m, "gob") || strings.Contains(m, "decod") || strings.Contains(m, "eof") || strings.Contains(m, "codec"):
+		// what a spliced or truncated row stream looks like to the decoder
+		return "corrupt-stream"
 	case strings.Contains(m, "not compiled") || strings.Contains(m, "invalid invocation"):
 		return "not-compiled"
 	case strings.Contains(m, "connection re") || strings.Contains(m, "unavailable") || strings.Contains(m, "stopped") || strings.Contains(m, "too many tries") || strings.Contains(m, "retries"):
@@ -263,23 +262,30 @@ func firedOK(c fcase, res cresult) bool {
 	return true
 }
 
-// variantClass: mid0 = cut before the first byte, midB = cut exactly at the end
-// of an encoded batch, mid = cut inside a batch.
+// variantClass: mid0 = reply cut before its first byte, mid = cut anywhere
+// later (whether the cut was at the end of an encoded batch is in the detail:
+// one defect shows at both kinds of cut, so they share a signature).
 func variantClass(f vsys.Fault, inf *progInfo) string {
 	if strings.HasPrefix(f.Variant, "mid:") {
-		var k int
-		fmt.Sscanf(f.Variant, "mid:%d", &k)
-		if k == 0 {
+		if f.Variant == "mid:0" {
 			return "mid0"
-		}
-		for _, b := range inf.bounds[stripOcc(f.Label)] {
-			if b == k {
-				return "midB"
-			}
 		}
 		return "mid"
 	}
 	return f.Variant
+}
+
+// atBatchEnd reports whether a mid:<k> fault cuts exactly at the end of a batch.
+func atBatchEnd(f vsys.Fault, inf *progInfo) bool {
+	var k int
+	if n, _ := fmt.Sscanf(f.Variant, "mid:%d", &k); n == 1 {
+		for _, b := range inf.bounds[stripOcc(f.Label)] {
+			if b == k {
+				return true
+			}
+		}
+	}
+	return false
 }
 
 func pointSig(f vsys.Fault, callee string, inf *progInfo) string {
@@ -498,7 +504,8 @@ func confirm(r *ev.Run, suspects []suspect, infos map[string]*progInfo) {
 		r.Violate(s.sig, what, map[string]interface{}{
 			"program": s.c.Prog, "mode": s.c.Mode, "faults": s.c.Faults, "callee": s.res.Callee, "killed": s.res.Killed,
 			"outcome": s.res.Out, "expected_rows": infos[s.c.Prog].expected, "history": s.res.History, "scan_start": s.res.ScanStart,
-			"crash": s.res.Crash, "rerun_outcomes": reruns[i].classes, "cases_with_this_signature": total[s.sig], "goroutine_dump": dump,
+			"crash": s.res.Crash, "rerun_outcomes": reruns[i].classes, "cut_at_batch_end": atBatchEnd(s.c.Faults[len(s.c.Faults)-1], infos[s.c.Prog]),
+			"batch_ends_in_reply": infos[s.c.Prog].bounds[stripOcc(s.c.Faults[len(s.c.Faults)-1].Label)], "cases_with_this_signature": total[s.sig], "goroutine_dump": dump,
 		})
 	}
 	if unconfirmed > 0 {
